@@ -36,6 +36,7 @@ FIRST_MISSED = {
     "C09-5": "`p_ram_value`: drawn row labels (duplicates as after pd.concat, shuffled, offset); output index == input index",
     "C09-6": "`load_safety_factors`: two-column (load_step, node_id) meshes whose second field is up to 1e4 times the load; gamma_L from the first column only",
     "C15-6": "`vector_call`: load_std arrays mixing exact zeros and positive entries == scalar calls",
+    "C05-7": "`batch_vs_alone`: sequences ending in [p, q, r] with r strictly between zero and the first sample, so that the closure of (p, q) is carried into the second pass and booked to the first, followed by second-pass hystereses (the plain lists reached that class in 1 of 300 cases)",
     "C02-1": "signal kind `decimal` (values single precision cannot represent, with exact ties)",
     "C02-3": "operator `near_plateau` (neighbour 1 ulp / 1e-12 / 1e-9 away: no plateau)",
     "C03-3": "new sub-check `nan_chunked` (NaN clause combined with chunked feeding)",
